@@ -6,7 +6,7 @@ import cp_common as cp
 import translate
 
 ID = "C08"
-COQ_IMPORTS = ["From HTA.lib Require Import Dag.", "From HTA.model Require Import C08_Model C08_Host C08_Dev."]
+COQ_IMPORTS = ["From HTA.lib Require Import Dag.", "From HTA.model Require Import C08_Model C08_Host C08_Dev C08_Clip."]
 SOURCES = cp.SOURCES
 TRANSLATE = [translate.gen_cprules]
 ASSUMPTIONS_HOST = "the depth-first traversal order is taken from the implementation's CallStackGraph.dfs_traverse; its well-formedness (wf_actions) is decided in Coq on every case"
@@ -84,7 +84,14 @@ def coq_term(case, impl):
         return "[false]"
     g = impl["graph"]
     return (f"(check_C08 {fw.b(impl['zero_weight_env'])} {clipped_lit(impl)} {nodes_lit(g)} {edges_lit(g)} {fw.zl(impl['order'])}, {host_term(impl)}, "
-            f"{dev_term(impl)})")
+            f"{dev_term(impl)}, {clip_term(impl)})")
+
+
+def clip_term(impl):
+    """the window and the kept rows (coq/model/C08_Clip.v) for the analysed rank's frame"""
+    inst = impl["instance"]
+    i, j = (0, 0) if inst is None else (tuple(inst) if isinstance(inst, (list, tuple)) else (inst, inst))
+    return f"encode_clip {fw.s(impl['annotation'])} {int(i)}%nat {int(j)}%nat {fw.evl(impl['rows'])}"
 
 
 def _drow_lit(r):
@@ -139,6 +146,11 @@ def compare(case, impl, model):
             disc.append(f"check_C08 rejects the graph: {what} {w}")
     disc += compare_host(impl, host, w)
     disc += compare_dev(impl, dev, w)
+    if len(model) >= 4:
+        lo, hi, ids = model[3][0], model[3][1], list(model[3][2])
+        if sorted(ids) != sorted(impl["clipped"]):
+            disc.append(f"events kept for the graph differ from the model of the window clipping (window [{lo}, {hi}]): only kept by the code "
+                        f"{sorted(set(impl['clipped']) - set(ids))[:6]}; only by the model {sorted(set(ids) - set(impl['clipped']))[:6]} {w}")
     return disc[:6]
 
 
@@ -146,7 +158,7 @@ def split_model(model):
     """Coq prints nested pairs flat: (checks, host, dev) or (checks, host, ok, dwf, edges)"""
     model = list(model)
     checks, host = model[0], model[1]
-    dev = model[2:] if len(model) > 3 else (model[2] if len(model) == 3 else None)
+    dev = model[2] if len(model) >= 3 else None
     return checks, host, dev
 
 
@@ -213,7 +225,9 @@ LEVEL_TEXT = ("Proof (verified checker): C08_check_sound: a graph accepted by ch
               "and blocking calls); its edges and attributions are compared with the real graph's host-to-host edges on every case. Device side likewise: "
               "C08_dev_edges_forward_typed: the loop of _construct_graph_from_kernels with its per-stream state (coq/model/C08_Dev.v), over ANY causally consistent "
               "processing sequence, emits only forward, non-negative, correctly typed edges; the model's edges are compared with all device-side edges of the real "
-              "graph on every case. CUDA-event synchronisation is modelled as attaching no edge (what the code does under pandas 3).")
+              "graph on every case. CUDA-event synchronisation is modelled as attaching no edge (what the code does under pandas 3). The window clipping "
+              "(coq/model/C08_Clip.v) is modelled too: C08_window_closed (a kept device row's launching / synchronising call is kept, so the builder's look-up of "
+              "its nodes cannot fail; host rows are kept exactly when they start in the window and last); the kept row set is compared on every case.")
 LEVEL_NOTE = ("Translation-validation style: the theorem is about the checker, the tie to the code is the per-run evaluation of the checker on the real graph. "
               "Event-record / stream-wait synchronisation is generated but attaches no edge under pandas 3 (see assumptions), so the event-sync edge rules are exercised only vacuously. networkx's topological order is an unchecked hint for the checked rank witness.")
 TECHNIQUE = "Coq-verified checker (reflection of the property's clauses; acyclicity by rank function) evaluated by vm_compute on every real graph + Gallina model of the host-side builder (state-machine invariant proof) in differential correspondence"
